@@ -93,3 +93,9 @@ package path
 //@   props C22 C01
 //@   modifies inf.SegID
 //@   ensures inf.SegID == old(inf.SegID)^(uint16(hfMac[0])<<8|uint16(hfMac[1]))
+
+//@ # registered path constructors return non-nil paths (assumption about RegisterPath callers)
+//@ func NewPath
+//@   trusted
+//@   modifies nothing
+//@   ensures result1 == nil ==> result0 != nil
